@@ -15,7 +15,8 @@ WORDS = ["foo", "bar", "Baz", "x1", "y z", "42", "äö", "日本", "𝒳", "a b 
 TAGS = ["span", "div", "b", "small", "ref", "code", "center", "s"]
 UNPARSED = ["nowiki", "pre", "math", "source"]
 SINGLE = ["br", "hr", "wbr"]
-ENTS = [("amp", True, False, "x"), ("nbsp", True, False, "x"), ("Sigma", True, False, "x"), ("107", False, False, "x"),
+ENTS = [("amp", True, False, "x"), ("nbsp", True, False, "x"), ("Sigma", True, False, "x"), ("sup2", True, False, "x"), ("frac12", True, False, "x"),
+        ("there4", True, False, "x"), ("thetasym", True, False, "x"), ("1114111", False, False, "x"), ("10FFFF", False, True, "x"), ("00065", False, False, "x"), ("107", False, False, "x"),
         ("1F", False, True, "x"), ("e9", False, True, "X")]
 
 
